@@ -86,6 +86,16 @@ class C08(flow.Spec):
             start = rnd.randrange(0, 6); last = rnd.randrange(0, 12)
             lims = [rnd.choice([0, B, 2 * B, 10 ** 9]) for _ in range(n + 1)]
             out.append((self.mk(start, last, seqs, [B] * n, lims), {"ill-formed"}))
+        # two rows under one seq (what a relay holds after a resurrecting merge: known finding
+        # resurrect-duplicate-seq); outside the quantifier, impl-vs-model only -- the model's
+        # exact answer is C08_served_is_prefix_up_to_last_seq
+        for last in range(0, 4):
+            for dup in range(0, last + 1):
+                seqs = []
+                for q in range(0, last + 1):
+                    seqs += [q, q] if q == dup else [q]
+                for lim in (0, B, 2 * B, 10 ** 9):
+                    out.append((self.mk(0, last, seqs, [B] * len(seqs), [lim] * (len(seqs) + 1)), {"ill-formed", "duplicate-seq"}))
         # chunk_range
         R = 14 if not thorough else 40
         for s in range(1, R + 1):
